@@ -182,7 +182,9 @@ node<P> CoverTreeWrapper<P, DistanceCallback>::batch_insert(DistanceCallback& dc
     else
     {
         ScalarType max_dist = max_set(point_set); // O(|point_set|)
-        int next_scale = std::min(max_scale - 1, get_scale(max_dist));
+        int next_scale = get_scale(max_dist);
+        if (next_scale != -2147483647 - 1) // max_scale is not the minimal int here, max_scale - 1 is safe
+            next_scale = std::min(max_scale - 1, next_scale);
         if (next_scale == -2147483647 - 1) // We have points with distance 0.
         {
             v_array<node<P>> children;
